@@ -234,7 +234,9 @@ func runWorkload(sh shape, N int, res *result) {
 			// Add = commit + AutoCompact. Between the two, decide independently (from the file lengths in
 			// the directory) whether two adjacent tables share a size class: class = floor(log2(bytes of
 			// blocks + 1)), i.e. the file without header and footer.
-			var classes []int
+			// The +1 is the implementation's convention; the statement does not fix it, so a decision that
+			// agrees with either convention (bytes of blocks, or bytes of blocks + 1) is accepted.
+			var classes, classes0 []int
 			for _, nm := range st.VerifNames() {
 				ino := w.Lookup(nm)
 				if ino == nil {
@@ -242,18 +244,22 @@ func runWorkload(sh shape, N int, res *result) {
 					return nil
 				}
 				classes = append(classes, ilog2(uint64(len(ino.Data)-hdr-ftr+1)))
+				classes0 = append(classes0, ilog2(uint64(len(ino.Data)-hdr-ftr)))
 			}
-			adjacent := false
+			adjacent, adjacent0 := false, false
 			for i := 1; i < len(classes); i++ {
 				if classes[i] == classes[i-1] {
 					adjacent = true
+				}
+				if classes0[i] == classes0[i-1] {
+					adjacent0 = true
 				}
 			}
 			if err := st.AutoCompact(); err != nil {
 				viol("workload:autocompact-fails", fmt.Sprintf("after Add #%d: %v", n, err))
 				return nil
 			}
-			if attempted := st.Stats.Attempts > attempts; attempted != adjacent {
+			if attempted := st.Stats.Attempts > attempts; attempted != adjacent && attempted != adjacent0 {
 				if attempted {
 					viol("workload:compaction-without-equal-neighbours", fmt.Sprintf("after Add #%d the tables have size classes %v (no two adjacent equal) but AutoCompact compacted", n, classes))
 				} else {
